@@ -55,15 +55,16 @@ def who_may_call(run, F, E, rule, table):
 
 
 def deactivation_resets(run, F, E, rule):
-    """deactivation leaves nothing behind that the next activation would act on: R_::finalExit definitely invalidates the active slot, the
-    requested slot and the outstanding request (must-write analysis) -- otherwise a request made before exit() would redirect the next
-    enter() away from the first declared state"""
+    """deactivation leaves nothing behind that the next activation would act on: R_::finalExit definitely invalidates the active slot and
+    the outstanding request (must-write analysis) -- otherwise a request made before exit() would redirect the next enter() away from the
+    first declared state. The *requested* slot needs no reset here: it is invalid at every return of every API call (C02.e, decided on the
+    interpreted program) and deactivation is an API call of its own, so a finalExit that does not touch it is as good as one that does."""
     M = effects.MustWrites(E)
     for fn in F.find('R_', 'finalExit'):
         mw = M.of_function(fn)
-        need = [('core', 'registry', 'active'), ('core', 'registry', 'requested'), ('core', 'request', 'destination')]
+        need = [('core', 'registry', 'active'), ('core', 'request', 'destination')]
         missing = [p for p in need if p not in mw and (p[:2] + ('*',)) not in mw]
-        run.ob(rule, 'R_::finalExit definitely resets the active slot, the requested slot and the outstanding request [%s]' % F.label(), not missing,
+        run.ob(rule, 'R_::finalExit definitely resets the active slot and the outstanding request [%s]' % F.label(), not missing,
                where=fn.pat, detail=missing or None, key='R_::finalExit leaves activation state behind')
 
 
